@@ -455,9 +455,12 @@ Proof.
     destruct (ms_consistence n2 lost) as [[[n3 o3] d3]|k] eqn:E3; [|discriminate]. apply ms_consistence_FR in E3.
     destruct d3; [inversion H; subst; repeat fr_step|].
     destruct (is_master n3) eqn:M; [|inversion H; subst; repeat fr_step].
-    destruct (or_starting orc || or_stopping orc); [inversion H; subst; repeat fr_step|].
-    destruct (negb (or_conflict orc)); inversion H; subst; repeat fr_step.
-    apply FR_by_master; [exact M|reflexivity].
+    assert (BM : forall l, forallb (fun o => negb (is_publish o)) l = true -> FR n3 l n3)
+      by (intros l Hl; apply FR_by_master; [exact M|exact Hl]).
+    destruct (or_starting orc || or_stopping orc);
+      [inversion H; subst; repeat fr_step; try (apply BM; destruct lostp; reflexivity)|].
+    destruct (negb (or_conflict orc)); inversion H; subst; repeat fr_step;
+      try (apply BM; destruct lostp; reflexivity).
   - (* RESTARTING *)
     destruct (ms_consistence n2 lost) as [[[n3 o3] d3]|k] eqn:E3; [|discriminate]. apply ms_consistence_FR in E3.
     destruct d3; [inversion H; subst; repeat fr_step|].
@@ -2788,4 +2791,739 @@ Proof.
   apply run_enter_needs_running_master_partial.
   - split; [apply ex_node_WF|]. split; [apply ex_node_ID|right; discriminate].
   - vm_compute. repeat split.
+Qed.
+
+(* ====================================================================== *)
+(* D'. C02: a non-Master follows its Master                                *)
+(* ====================================================================== *)
+Definition NoFailed (n : node) : Prop := forall j s, aget j (n_insts n) = Some s -> is_state s <> FAILED.
+
+(* instance statuses after a successful set_inst_state *)
+Lemma set_inst_state_insts : forall n j st now n' o, set_inst_state n j st now = Ok (n', o) ->
+  n_hosting n' = n_hosting n /\
+  ((n_insts n' = n_insts n /\ exists s, aget j (n_insts n) = Some s /\ is_state s = st)
+   \/ exists s', is_state s' = st /\ n_insts n' = aset j s' (n_insts n)).
+Proof.
+  intros n j st now n' o H. unfold set_inst_state in H.
+  destruct (aget j (n_insts n)) as [s|] eqn:Ej; [|discriminate].
+  destruct (istate_eqb (is_state s) st) eqn:E.
+  - inversion H; subst. split; [reflexivity|]. left. split; [reflexivity|]. exists s. split; [reflexivity|].
+    apply istate_eqb_eq. exact E.
+  - destruct (inst_transition_ok (is_state s) st); [|discriminate]. inversion H as [H1]. clear H.
+    apply update_instance_state_fields in H1. destruct H1 as [_ [_ [A3 [A4 _]]]]. simpl in A3, A4.
+    split; [exact A4|]. right. eexists. split; [|exact A3]. reflexivity.
+Qed.
+
+Lemma set_inst_state_insts_self : forall n j st now n' o, set_inst_state n j st now = Ok (n', o) ->
+  forall s, aget j (n_insts n') = Some s -> is_state s = st.
+Proof.
+  intros n j st now n' o H s Hs. apply set_inst_state_insts in H.
+  destruct H as [_ [[E [s0 [Ej Es]]]|[s' [Es' E]]]]; rewrite E in Hs.
+  - congruence.
+  - rewrite aget_aset, Z.eqb_refl in Hs. congruence.
+Qed.
+
+Lemma set_inst_state_insts_other : forall n j st now n' o, set_inst_state n j st now = Ok (n', o) ->
+  forall k, k <> j -> aget k (n_insts n') = aget k (n_insts n).
+Proof.
+  intros n j st now n' o H k Hk. apply set_inst_state_insts in H.
+  destruct H as [_ [[E _]|[s' [_ E]]]]; rewrite E; [reflexivity|].
+  rewrite aget_aset. apply Z.eqb_neq in Hk. rewrite Hk. reflexivity.
+Qed.
+
+Lemma invalidate_insts_self : forall n j fence now n' o, invalidate n j fence now = Ok (n', o) ->
+  forall s, aget j (n_insts n') = Some s -> is_state s <> FAILED.
+Proof.
+  intros n j fence now n' o H s Hs. unfold invalidate in H.
+  destruct (Z.eqb j (n_me n)); [rewrite (set_inst_state_insts_self _ _ _ _ _ _ H s Hs); discriminate|].
+  destruct (fence || _); rewrite (set_inst_state_insts_self _ _ _ _ _ _ H s Hs); discriminate.
+Qed.
+
+Lemma invalidate_insts_other : forall n j fence now n' o, invalidate n j fence now = Ok (n', o) ->
+  forall k, k <> j -> aget k (n_insts n') = aget k (n_insts n).
+Proof.
+  intros n j fence now n' o H k Hk. unfold invalidate in H.
+  destruct (Z.eqb j (n_me n)); [eapply set_inst_state_insts_other; eassumption|].
+  destruct (fence || _); eapply set_inst_state_insts_other; eassumption.
+Qed.
+
+(* after invalidate_failed no instance is FAILED *)
+Lemma invalidate_failed_aux_NoFailed : forall ids n acc lost lostp now n' outs lost' lostp',
+  invalidate_failed_aux ids n acc lost lostp now = Ok (n', outs, lost', lostp') ->
+  (forall k s, aget k (n_insts n) = Some s -> is_state s = FAILED -> In k ids) -> NoFailed n'.
+Proof.
+  induction ids as [|j r IH]; simpl; intros n acc lost lostp now n' outs lost' lostp' H Hin.
+  - inversion H; subst. intros k s Hk Hf. eapply Hin; eassumption.
+  - unfold inst_state in H. destruct (aget j (n_insts n)) as [sj|] eqn:Ej.
+    + destruct (is_state sj) eqn:Esj;
+        try (eapply IH; [exact H|]; intros k s Hk Hf; destruct (Hin k s Hk Hf) as [X|X]; [subst; congruence|exact X]).
+      destruct (invalidate n j false now) as [[n1 o1]|kk] eqn:E; [|discriminate].
+      eapply IH; [exact H|]. simpl. intros k s Hk Hf.
+      destruct (Z.eq_dec k j) as [->|Hne].
+      * exfalso. eapply (invalidate_insts_self _ _ _ _ _ _ E); eassumption.
+      * rewrite (invalidate_insts_other _ _ _ _ _ _ E k Hne) in Hk.
+        destruct (Hin k s Hk Hf) as [X|X]; [congruence|exact X].
+    + eapply IH; [exact H|]. intros k s Hk Hf. destruct (Hin k s Hk Hf) as [X|X]; [subst; congruence|exact X].
+Qed.
+
+Lemma invalidate_failed_NoFailed : forall n now n' o lost lostp,
+  invalidate_failed n now = Ok (n', o, lost, lostp) -> NoFailed n'.
+Proof.
+  intros n now n' o lost lostp H. unfold invalidate_failed in H.
+  eapply invalidate_failed_aux_NoFailed; [exact H|]. intros k s Hk _. eapply aget_In_keys. exact Hk.
+Qed.
+
+(* and when none is FAILED it does nothing *)
+Lemma invalidate_failed_aux_id : forall ids n acc lost lostp now, NoFailed n ->
+  invalidate_failed_aux ids n acc lost lostp now = Ok (n, acc, lost, lostp).
+Proof.
+  induction ids as [|j r IH]; simpl; intros n acc lost lostp now Hn; [reflexivity|].
+  unfold inst_state. destruct (aget j (n_insts n)) as [sj|] eqn:Ej; [|apply IH; exact Hn].
+  assert (X := Hn j sj Ej). destruct (is_state sj); try (apply IH; exact Hn). congruence.
+Qed.
+
+Lemma invalidate_failed_id : forall n now, NoFailed n -> invalidate_failed n now = Ok (n, [], [], false).
+Proof. intros n now Hn. unfold invalidate_failed. apply invalidate_failed_aux_id. exact Hn. Qed.
+
+(* ---------- what does not move while no instance fails ---------- *)
+(* same Master, same FSM state, same views of the other instances *)
+Definition Vsame (n n' : node) : Prop :=
+  n_me n' = n_me n /\ master n' = master n /\ fsm_state n' = fsm_state n /\
+  (forall k, k <> n_me n -> aget k (n_views n') = aget k (n_views n)).
+
+Lemma Vsame_refl : forall n, Vsame n n.
+Proof. intros n. repeat split. Qed.
+
+Lemma Vsame_trans : forall a b c, Vsame a b -> Vsame b c -> Vsame a c.
+Proof.
+  intros a b c [A1 [A2 [A3 A4]]] [B1 [B2 [B3 B4]]]. repeat split; try congruence.
+  intros k Hk. rewrite B4; [apply A4; exact Hk|congruence].
+Qed.
+
+Lemma Vsame_set_own : forall n s, sm_master s = master n -> sm_fsm s = fsm_state n -> Vsame n (set_own n s).
+Proof.
+  intros n s Hm Hf. split; [reflexivity|]. unfold master, fsm_state. rewrite own_set_own.
+  split; [exact Hm|]. split; [exact Hf|]. intros k Hk. simpl. rewrite aget_aset.
+  apply Z.eqb_neq in Hk. rewrite Hk. reflexivity.
+Qed.
+
+Lemma Vsame_silent : forall n n', n_me n' = n_me n -> n_views n' = n_views n -> Vsame n n'.
+Proof.
+  intros n n' E1 E2. unfold Vsame, master, fsm_state, own. rewrite E1, E2. repeat split.
+Qed.
+
+Lemma set_degraded_V : forall n b, Vsame n (fst (set_degraded n b)) /\ n_insts (fst (set_degraded n b)) = n_insts n.
+Proof.
+  intros n b. unfold set_degraded. destruct (Bool.eqb _ b); simpl; (split; [|reflexivity]); [apply Vsame_refl|].
+  apply Vsame_set_own; reflexivity.
+Qed.
+
+Lemma set_master_insts : forall n m, n_insts (fst (set_master n m)) = n_insts n.
+Proof. intros n m. unfold set_master. destruct (Z.eqb _ m); reflexivity. Qed.
+
+Lemma activate_running_V : forall n j now n' o, set_inst_state n j IRUNNING now = Ok (n', o) ->
+  Vsame n n' /\ (NoFailed n -> NoFailed n').
+Proof.
+  intros n j now n' o H. split.
+  - unfold set_inst_state in H. destruct (aget j (n_insts n)) as [s|]; [|discriminate].
+    destruct (istate_eqb (is_state s) IRUNNING); [inversion H; subst; apply Vsame_refl|].
+    destruct (inst_transition_ok (is_state s) IRUNNING); [|discriminate].
+    inversion H as [[H1 H2]]. clear H. subst.
+    match goal with |- Vsame n (set_mark (set_own ?x ?s1) true) =>
+      apply (Vsame_trans n (set_own x s1)); [|apply Vsame_silent; reflexivity];
+      apply (Vsame_trans n x); [apply Vsame_silent; reflexivity|apply Vsame_set_own; reflexivity] end.
+  - intros Hn k s Hk. destruct (Z.eq_dec k j) as [->|Hne].
+    + rewrite (set_inst_state_insts_self _ _ _ _ _ _ H s Hk). discriminate.
+    + rewrite (set_inst_state_insts_other _ _ _ _ _ _ H k Hne) in Hk. eapply Hn. exact Hk.
+Qed.
+
+Lemma activate_checked_aux_V : forall ids n acc act now n' outs act',
+  activate_checked_aux ids n acc act now = Ok (n', outs, act') -> Vsame n n' /\ (NoFailed n -> NoFailed n').
+Proof.
+  induction ids as [|j r IH]; simpl; intros n acc act now n' outs act' H.
+  - inversion H; subst. split; [apply Vsame_refl|intro X; exact X].
+  - destruct (inst_state n j) as [[]|]; try (eapply IH; eassumption).
+    destruct (set_inst_state n j IRUNNING now) as [[n1 o1]|k] eqn:E; [|discriminate].
+    apply activate_running_V in E. destruct E as [V1 N1]. apply IH in H. destruct H as [V2 N2].
+    split; [eapply Vsame_trans; eassumption|intro X; apply N2; apply N1; exact X].
+Qed.
+
+
+Lemma NoFailed_insts : forall n n', n_insts n' = n_insts n -> NoFailed n -> NoFailed n'.
+Proof. intros n n' E H j s Hj. rewrite E in Hj. eapply H. exact Hj. Qed.
+
+Lemma check_instances_N : forall n now n' o lost lostp d,
+  check_instances n now = Ok (n', o, lost, lostp, d) -> NoFailed n' /\ (NoFailed n -> Vsame n n').
+Proof.
+  intros n now n' o lost lostp d H. unfold check_instances in H.
+  destruct (invalidate_failed n now) as [[[[n1 o1] l1] lp1]|k] eqn:E1; [|discriminate].
+  assert (N1 := invalidate_failed_NoFailed _ _ _ _ _ _ E1).
+  assert (V1 : NoFailed n -> n1 = n).
+  { intros Hn. rewrite (invalidate_failed_id n now Hn) in E1. inversion E1. reflexivity. }
+  unfold activate_checked in H.
+  destruct (act_of (fsm_state n)).
+  - destruct (activate_checked_aux _ _ _ _ _) as [[[n2 o2] act]|k] eqn:E2; [|discriminate].
+    apply activate_checked_aux_V in E2. destruct E2 as [V2 N2]. inversion H; subst.
+    split; [apply N2; exact N1|]. intros Hn. rewrite (V1 Hn) in V2. exact V2.
+  - destruct (activate_checked_aux _ _ _ _ _) as [[[n2 o2] act]|k] eqn:E2; [|discriminate].
+    apply activate_checked_aux_V in E2. destruct E2 as [V2 N2]. inversion H; subst.
+    split; [apply N2; exact N1|]. intros Hn. rewrite (V1 Hn) in V2. exact V2.
+  - inversion H; subst. split; [exact N1|]. intros Hn. rewrite (V1 Hn). apply Vsame_refl.
+Qed.
+
+Lemma check_instances_base : forall n now n' o lost lostp d, act_of (fsm_state n) = ActBase ->
+  check_instances n now = Ok (n', o, lost, lostp, d) -> d = None.
+Proof.
+  intros n now n' o lost lostp d Ha H. unfold check_instances in H. rewrite Ha in H.
+  destruct (invalidate_failed n now) as [[[[n1 o1] l1] lp1]|k]; [|discriminate].
+  destruct (activate_checked n1 now) as [[[n2 o2] act]|k]; [|discriminate]. inversion H. reflexivity.
+Qed.
+
+Lemma evaluate_stability_shape : forall n n', evaluate_stability n = Ok n' -> exists s, n' = set_stable n s.
+Proof.
+  intros n n' H. unfold evaluate_stability in H.
+  destruct (running_views n (n_views n)) as [rv|k]; [|discriminate]. simpl in H.
+  destruct (map _ rv) as [|s0 t]; [inversion H; eexists; reflexivity|].
+  destruct (forallb _ _); inversion H; eexists; reflexivity.
+Qed.
+
+Lemma sync_consistence_V : forall n lost n' o d, sync_consistence n lost = (n', o, d) ->
+  Vsame n n' /\ n_insts n' = n_insts n /\
+  (forall x, d = Some x -> x = OFF \/ x = SYNCHRONIZATION \/ x = SHUTTING_DOWN).
+Proof.
+  intros n lost n' o d H. unfold sync_consistence, on_consistence in H. destruct (local_running n).
+  - assert (Hd : forall x, d = Some x -> x = SYNCHRONIZATION \/ x = SHUTTING_DOWN).
+    { intros x Ex. subst d. apply check_failure_strategy_dec in H. destruct H as [H|[H _]]; [left|right]; exact H. }
+    unfold check_failure_strategy in H.
+    match type of H with (let '(_, _) := set_degraded n ?b in _) = _ =>
+      assert (X := set_degraded_V n b); destruct (set_degraded n b) as [n1 o1] end.
+    simpl in X. injection H as H1 H2 H3. subst n1. destruct X as [X1 X2]. split; [exact X1|]. split; [exact X2|].
+    intros x Ex. right. apply Hd. exact Ex.
+  - inversion H; subst. split; [apply Vsame_refl|]. split; [reflexivity|]. intros x Ex. inversion Ex. left. reflexivity.
+Qed.
+
+Lemma ms_consistence_V : forall n lost n' o d, ms_consistence n lost = Ok (n', o, d) ->
+  Vsame n n' /\ n_insts n' = n_insts n /\
+  (forall x, d = Some x -> x = OFF \/ x = SYNCHRONIZATION \/ x = SHUTTING_DOWN \/ x = ELECTION).
+Proof.
+  intros n lost n' o d H. unfold ms_consistence in H.
+  destruct (sync_consistence n lost) as [[n1 o1] d1] eqn:E. apply sync_consistence_V in E. destruct E as [V [Ei Hd]].
+  destruct d1 as [x1|].
+  - inversion H; subst. split; [exact V|]. split; [exact Ei|]. intros x Ex. inversion Ex; subst.
+    destruct (Hd x eq_refl) as [A|[A|A]]; [left|right; left|right; right; left]; exact A.
+  - destruct (check_master n1) as [ok|k]; [|discriminate]. simpl in H. inversion H; subst.
+    split; [exact V|]. split; [exact Ei|]. intros x Ex. destruct ok; inversion Ex. right. right. right. reflexivity.
+Qed.
+
+Lemma accept_master_insts : forall n p n' o, accept_master n p = Ok (n', o) -> n_insts n' = n_insts n.
+Proof.
+  intros n p n' o H. unfold accept_master in H. destruct (master_identifiers n) as [ms|k]; [|discriminate]. simpl in H.
+  destruct (zdiscard 0 ms) as [|m [|m2 r]]; inversion H as [E5]; [reflexivity| |];
+    match type of E5 with set_master n ?x = _ => assert (X := set_master_insts n x); rewrite E5 in X; exact X end.
+Qed.
+
+Lemma select_master_insts : forall n n' o, select_master n = Ok (n', o) -> n_insts n' = n_insts n.
+Proof.
+  intros n n' o H. unfold select_master in H. destruct (master_identifiers n) as [ms|k]; [|discriminate]. simpl in H.
+  match type of H with bind ?x _ = _ => destruct x as [[[m rk]|]|k] end; simpl in H; try discriminate.
+  inversion H as [E5]. assert (X := set_master_insts n m). rewrite E5 in X. exact X.
+Qed.
+
+(* ---------- justification of the decisions ---------- *)
+Definition working (t : sstate) : Prop := t = DISTRIBUTION \/ t = OPERATION \/ t = CONCILIATION.
+Definition ending (t : sstate) : Prop := t = RESTARTING \/ t = SHUTTING_DOWN.
+
+(* the local instance is the Master, or its view of the Master is in state t (or beyond DISTRIBUTION) *)
+Definition FokT (n : node) (t : sstate) : Prop :=
+  is_master n = true \/ master_state n = Some t
+  \/ (t = DISTRIBUTION /\ (master_state n = Some OPERATION \/ master_state n = Some CONCILIATION)).
+Definition Fok (n : node) : Prop := needs_master (scode (fsm_state n)) = false \/ FokT n (fsm_state n).
+Definition Jf (n : node) (d : option sstate) : Prop :=
+  forall t, d = Some t -> working t -> t <> fsm_state n -> FokT n t.
+
+(* same Master, same views of the others *)
+Definition Msame (n n' : node) : Prop :=
+  n_me n' = n_me n /\ master n' = master n /\ (forall k, k <> n_me n -> aget k (n_views n') = aget k (n_views n)).
+
+Lemma Vsame_Msame : forall n n', Vsame n n' -> Msame n n'.
+Proof. intros n n' [A [B [_ C]]]. repeat split; assumption. Qed.
+
+Lemma FokT_Msame : forall n n' t, Msame n n' -> FokT n t -> FokT n' t.
+Proof.
+  intros n n' t [A [B C]] H. unfold FokT, is_master, master_state in *. rewrite A, B.
+  destruct (Z.eqb (master n) (n_me n)) eqn:E; [left; reflexivity|]. apply Z.eqb_neq in E.
+  rewrite (C _ E). destruct H as [H|H]; [discriminate|right; exact H].
+Qed.
+
+Lemma enter_Msame : forall n t now, Msame n (fst (enter_state (fst (set_fsm n t)) t now))
+  /\ n_insts (fst (enter_state (fst (set_fsm n t)) t now)) = n_insts n
+  /\ (t <> fsm_state n -> fsm_state (fst (enter_state (fst (set_fsm n t)) t now)) = t).
+Proof.
+  intros n t now.
+  assert (X : Msame n (fst (set_fsm n t)) /\ n_insts (fst (set_fsm n t)) = n_insts n
+              /\ (t <> fsm_state n -> fsm_state (fst (set_fsm n t)) = t)).
+  { unfold set_fsm. destruct (sstate_eqb (fsm_state n) t) eqn:E; simpl.
+    - split; [repeat split|]. split; [reflexivity|]. intros Hne. apply sstate_eqb_eq in E. congruence.
+    - split.
+      + split; [reflexivity|]. split; [unfold master; rewrite own_set_own; reflexivity|].
+        intros k Hk. simpl. rewrite aget_aset. apply Z.eqb_neq in Hk. rewrite Hk. reflexivity.
+      + split; [reflexivity|]. intros _. unfold fsm_state. rewrite own_set_own. reflexivity. }
+  destruct (set_fsm n t) as [n1 o1]. simpl in *. destruct t; simpl; exact X.
+Qed.
+
+(* one evaluation: what it guarantees *)
+Lemma fsm_next_F : forall n orc now n' o d, fsm_next n orc now = Ok (n', o, d) ->
+  NoFailed n' /\ Jf n' d /\
+  (NoFailed n -> needs_master (scode (fsm_state n)) = true -> Vsame n n') /\
+  (ending (fsm_state n) ->
+     d = Some FINAL \/ (d = Some (fsm_state n) /\ (is_master n' = true \/ master_state n' = Some (fsm_state n)))).
+Proof.
+  intros n orc now n' o d H.
+  assert (F := fsm_next_FR _ _ _ _ _ _ H). destruct F as [_ [Es _]].
+  unfold fsm_next in H.
+  destruct (check_instances n now) as [[[[[n1 o1] lost] lostp] d1]|k] eqn:E1; [|discriminate].
+  assert (Hb : act_of (fsm_state n) = ActBase -> d1 = None)
+    by (intro Ha; eapply check_instances_base; [exact Ha|exact E1]).
+  assert (Hel : forall x, d1 = Some x -> x = ELECTION) by (intros x Ex; subst d1; eapply check_instances_dec; exact E1).
+  apply check_instances_N in E1. destruct E1 as [N1 V1].
+  destruct d1 as [d1|].
+  { inversion H; subst. rewrite (Hel d1 eq_refl). split; [exact N1|]. split.
+    - intros t Et [W|[W|W]]; inversion Et; subst; discriminate.
+    - split; [intros Hn _; apply V1; exact Hn|]. intros [He|He]; rewrite He in Hb; specialize (Hb eq_refl); discriminate. }
+  destruct (evaluate_stability n1) as [n2|k] eqn:E2; [|discriminate].
+  apply evaluate_stability_shape in E2. destruct E2 as [s En2].
+  assert (N2 : NoFailed n2) by (subst n2; exact N1).
+  assert (V2 : NoFailed n -> Vsame n n2).
+  { intros Hn. eapply Vsame_trans; [apply V1; exact Hn|]. subst n2. apply Vsame_silent; reflexivity. }
+  clear N1 V1 En2 Hb Hel.
+  assert (Jnw : forall x n0, ~ working x -> Jf n0 (Some x)).
+  { intros x n0 Hx t Et W. inversion Et; subst. contradiction. }
+  assert (NW : forall x, x = OFF \/ x = SYNCHRONIZATION \/ x = SHUTTING_DOWN \/ x = ELECTION -> ~ working x).
+  { intros x [A|[A|[A|A]]] [W|[W|W]]; subst; discriminate. }
+  destruct (fsm_state n) eqn:Est.
+  - (* OFF *) inversion H; subst. split; [exact N2|]. split.
+    + apply Jnw. destruct (local_running n'); intros [W|[W|W]]; discriminate.
+    + split; [intros _ X; vm_compute in X; discriminate|intros [X|X]; discriminate].
+  - (* SYNCHRONIZATION *)
+    assert (R : NoFailed n' /\ Jf n' d).
+    { destruct (on_consistence n2) as [x|] eqn:Eoc.
+      - unfold on_consistence in Eoc. destruct (local_running n2); inversion Eoc; subst.
+        inversion H; subst. split; [exact N2|]. apply Jnw. intros [W|[W|W]]; discriminate.
+      - match type of H with match ?u with _ => _ end = _ => destruct u as [[[n3 o3] us]|k] eqn:E3; [|discriminate] end.
+        assert (I3 : n_insts n3 = n_insts n2).
+        { destruct (o_user (n_opts n2)); [|inversion E3; reflexivity].
+          destruct (accept_master n2 (or_pick orc)) as [[n3' o3']|k] eqn:E4; [|discriminate].
+          assert (I4 := accept_master_insts _ _ _ _ E4).
+          destruct (master n3' =? 0); [inversion E3; subst; exact I4|].
+          destruct (inst_state n3' (master n3')); inversion E3; subst; exact I4. }
+        match type of H with (let '(_, _) := set_degraded n3 ?b in _) = _ =>
+          assert (X := set_degraded_V n3 b); destruct (set_degraded n3 b) as [n4 o4] end.
+        simpl in X. destruct X as [_ X]. inversion H; subst. split.
+        + eapply NoFailed_insts; [|exact N2]. congruence.
+        + apply Jnw. match goal with |- context [if ?c then ELECTION else SYNCHRONIZATION] => destruct c end;
+            intros [W|[W|W]]; discriminate. }
+    destruct R as [R1 R2]. split; [exact R1|]. split; [exact R2|].
+    split; [intros _ X; vm_compute in X; discriminate|intros [X|X]; discriminate].
+  - (* ELECTION *)
+    assert (R : NoFailed n' /\ Jf n' d).
+    { destruct (sync_consistence n2 lost) as [[n3 o3] d3] eqn:E3. apply sync_consistence_V in E3.
+      destruct E3 as [_ [I3 Hd3]]. assert (N3 : NoFailed n3) by (eapply NoFailed_insts; eassumption).
+      destruct d3 as [x|].
+      { inversion H; subst. split; [exact N3|]. apply Jnw. apply NW.
+        destruct (Hd3 x eq_refl) as [A|[A|A]]; [left|right; left|right; right; left]; exact A. }
+      assert (SMb : forall oa ob, bind (select_master n3) (fun r => Ok (fst r, oa ++ ob ++ snd r, Some ELECTION)) = Ok (n', o, d) ->
+                    NoFailed n' /\ Jf n' d).
+      { intros oa ob Hb. destruct (select_master n3) as [[n4 o4]|k] eqn:E4; [|discriminate]. simpl in Hb. inversion Hb; subst.
+        split; [|apply Jnw; intros [W|[W|W]]; discriminate].
+        eapply NoFailed_insts; [|exact N3]. eapply select_master_insts. exact E4. }
+      destruct (is_stable n3); [|inversion H; subst; split; [exact N3|apply Jnw; intros [W|[W|W]]; discriminate]].
+      destruct (check_master n3) as [[|]|k]; [| |discriminate].
+      + destruct (is_master n3) eqn:M.
+        * inversion H; subst. split; [exact N3|]. intros t Et _ _. left. exact M.
+        * destruct (master_state n3) as [x|] eqn:Ems; [|apply (SMb o1 o3); exact H].
+          destruct x; first [ apply (SMb o1 o3); exact H
+                            | inversion H; subst; split; [exact N3|]; intros t Et _ _; inversion Et; subst;
+                              right; first [left; exact Ems | right; split; [reflexivity|]; first [left; exact Ems|right; exact Ems]] ].
+      + apply (SMb o1 o3); exact H. }
+    destruct R as [R1 R2]. split; [exact R1|]. split; [exact R2|].
+    split; [intros _ X; vm_compute in X; discriminate|intros [X|X]; discriminate].
+  - (* DISTRIBUTION *)
+    destruct (ms_consistence n2 lost) as [[[n3 o3] d3]|k] eqn:E3; [|discriminate]. apply ms_consistence_V in E3.
+    destruct E3 as [V3 [I3 Hd3]]. assert (N3 : NoFailed n3) by (eapply NoFailed_insts; eassumption).
+    assert (R : n' = n3 /\ Jf n3 d).
+    { destruct d3 as [x|]; [inversion H; subst; split; [reflexivity|apply Jnw; apply NW; apply Hd3; reflexivity]|].
+      destruct (is_master n3) eqn:M; inversion H; subst; (split; [reflexivity|]).
+      - intros t _ _ _. left. exact M.
+      - intros t Et _ _. right. left. exact Et. }
+    destruct R as [R1 R2]. subst n'. split; [exact N3|]. split; [exact R2|].
+    split; [intros Hn _; eapply Vsame_trans; [apply V2; exact Hn|exact V3]|intros [X|X]; discriminate].
+  - (* OPERATION *)
+    destruct (ms_consistence n2 lost) as [[[n3 o3] d3]|k] eqn:E3; [|discriminate]. apply ms_consistence_V in E3.
+    destruct E3 as [V3 [I3 Hd3]]. assert (N3 : NoFailed n3) by (eapply NoFailed_insts; eassumption).
+    assert (R : n' = n3 /\ Jf n3 d).
+    { destruct d3 as [x|]; [inversion H; subst; split; [reflexivity|apply Jnw; apply NW; apply Hd3; reflexivity]|].
+      destruct (is_master n3) eqn:M; inversion H; subst; (split; [reflexivity|]).
+      - intros t _ _ _. left. exact M.
+      - intros t Et _ _. right. left. exact Et. }
+    destruct R as [R1 R2]. subst n'. split; [exact N3|]. split; [exact R2|].
+    split; [intros Hn _; eapply Vsame_trans; [apply V2; exact Hn|exact V3]|intros [X|X]; discriminate].
+  - (* CONCILIATION *)
+    destruct (ms_consistence n2 lost) as [[[n3 o3] d3]|k] eqn:E3; [|discriminate]. apply ms_consistence_V in E3.
+    destruct E3 as [V3 [I3 Hd3]]. assert (N3 : NoFailed n3) by (eapply NoFailed_insts; eassumption).
+    assert (R : n' = n3 /\ Jf n3 d).
+    { destruct d3 as [x|]; [inversion H; subst; split; [reflexivity|apply Jnw; apply NW; apply Hd3; reflexivity]|].
+      destruct (is_master n3) eqn:M.
+      - assert (Jm : forall dd, Jf n3 dd) by (intros dd t _ _ _; left; exact M).
+        destruct (or_starting orc || or_stopping orc); [inversion H; subst; split; [reflexivity|apply Jm]|].
+        destruct (negb (or_conflict orc)); inversion H; subst; (split; [reflexivity|apply Jm]).
+      - inversion H; subst. split; [reflexivity|]. intros t Et _ _. right. left. exact Et. }
+    destruct R as [R1 R2]. subst n'. split; [exact N3|]. split; [exact R2|].
+    split; [intros Hn _; eapply Vsame_trans; [apply V2; exact Hn|exact V3]|intros [X|X]; discriminate].
+  - (* RESTARTING *)
+    destruct (ms_consistence n2 lost) as [[[n3 o3] d3]|k] eqn:E3; [|discriminate]. apply ms_consistence_V in E3.
+    destruct E3 as [V3 [I3 Hd3]]. assert (N3 : NoFailed n3) by (eapply NoFailed_insts; eassumption).
+    assert (R : n' = n3 /\ (d = Some FINAL \/ (d = Some RESTARTING /\ (is_master n3 = true \/ master_state n3 = Some RESTARTING)))).
+    { destruct d3 as [x|]; [inversion H; subst; split; [reflexivity|left; reflexivity]|].
+      destruct (is_master n3) eqn:M; inversion H; subst; (split; [reflexivity|]).
+      - destruct (or_stopping orc); [right; split; [reflexivity|left; reflexivity]|left; reflexivity].
+      - unfold ending_slave_next. destruct (master_state n') as [ms|]; [|left; reflexivity].
+        destruct (sstate_eqb ms RESTARTING) eqn:Em; [|left; reflexivity].
+        apply sstate_eqb_eq in Em. subst. right. split; [reflexivity|right; reflexivity]. }
+    destruct R as [R1 R2]. subst n'. split; [exact N3|]. split.
+    + destruct R2 as [R2|[R2 _]]; subst d; apply Jnw; intros [W|[W|W]]; discriminate.
+    + split; [intros Hn _; eapply Vsame_trans; [apply V2; exact Hn|exact V3]|intros _; exact R2].
+  - (* SHUTTING_DOWN *)
+    destruct (ms_consistence n2 lost) as [[[n3 o3] d3]|k] eqn:E3; [|discriminate]. apply ms_consistence_V in E3.
+    destruct E3 as [V3 [I3 Hd3]]. assert (N3 : NoFailed n3) by (eapply NoFailed_insts; eassumption).
+    assert (R : n' = n3 /\ (d = Some FINAL \/ (d = Some SHUTTING_DOWN /\ (is_master n3 = true \/ master_state n3 = Some SHUTTING_DOWN)))).
+    { destruct d3 as [x|]; [inversion H; subst; split; [reflexivity|left; reflexivity]|].
+      destruct (is_master n3) eqn:M; inversion H; subst; (split; [reflexivity|]).
+      - destruct (or_stopping orc); [right; split; [reflexivity|left; reflexivity]|left; reflexivity].
+      - unfold ending_slave_next. destruct (master_state n') as [ms|]; [|left; reflexivity].
+        destruct (sstate_eqb ms SHUTTING_DOWN) eqn:Em; [|left; reflexivity].
+        apply sstate_eqb_eq in Em. subst. right. split; [reflexivity|right; reflexivity]. }
+    destruct R as [R1 R2]. subst n'. split; [exact N3|]. split.
+    + destruct R2 as [R2|[R2 _]]; subst d; apply Jnw; intros [W|[W|W]]; discriminate.
+    + split; [intros Hn _; eapply Vsame_trans; [apply V2; exact Hn|exact V3]|intros _; exact R2].
+  - (* FINAL *)
+    inversion H; subst. split; [exact N2|]. split; [intros t Et; discriminate|].
+    split; [intros _ X; vm_compute in X; discriminate|intros [X|X]; discriminate].
+Qed.
+
+
+Lemma needs_master_cases : forall t, needs_master (scode t) = true -> working t \/ ending t.
+Proof.
+  destruct t; vm_compute; intro H; try discriminate H;
+    first [left; left; reflexivity | left; right; left; reflexivity | left; right; right; reflexivity
+          | right; left; reflexivity | right; right; reflexivity].
+Qed.
+
+Lemma ending_to_final : forall f, ending f -> sstate_eqb FINAL f = false /\ fsm_transition_ok f FINAL = true.
+Proof. intros f [H|H]; subst; vm_compute; split; reflexivity. Qed.
+
+Lemma working_not_ending : forall t, working t -> ending t -> False.
+Proof. intros t [W|[W|W]] [E|E]; subst; discriminate. Qed.
+
+(* the set_state loop: at the end the state is the initial one of the event, or the Master condition holds *)
+Lemma set_state_follows : forall prev fuel n d orcs now acc n' outs,
+  ((NoFailed n /\ Jf n d) \/ exists t, d = Some t /\ ending t) ->
+  (fsm_state n = prev \/ Fok n \/ (ending (fsm_state n) /\ d = Some FINAL)) ->
+  set_state fuel n d orcs now acc = Ok (n', outs) -> fsm_state n' = prev \/ Fok n'.
+Proof.
+  intros prev. induction fuel as [|fuel IH]; intros n d orcs now acc n' outs HJ HG H.
+  - simpl in H.
+    assert (R : n' = n).
+    { destruct d as [ns|]; [|inversion H; reflexivity].
+      destruct (sstate_eqb ns (fsm_state n)); [inversion H; reflexivity|].
+      destruct (negb (fsm_transition_ok (fsm_state n) ns)); [inversion H; reflexivity|discriminate]. }
+    subst n'. destruct HG as [HG|[HG|[He Hd]]]; [left; exact HG|right; exact HG|].
+    subst d. destruct (ending_to_final _ He) as [A B]. rewrite A, B in H. simpl in H. discriminate.
+  - simpl in H.
+    assert (Ret : forall ns, d = Some ns -> (sstate_eqb ns (fsm_state n) = true \/ fsm_transition_ok (fsm_state n) ns = false) ->
+                  fsm_state n = prev \/ Fok n).
+    { intros ns Ed Hb. destruct HG as [HG|[HG|[He Hd]]]; [left; exact HG|right; exact HG|].
+      rewrite Hd in Ed. inversion Ed; subst ns. destruct (ending_to_final _ He) as [A B].
+      destruct Hb as [Hb|Hb]; congruence. }
+    destruct d as [ns|].
+    2:{ inversion H; subst. destruct HG as [HG|[HG|[_ Hd]]]; [left; exact HG|right; exact HG|discriminate]. }
+    destruct (sstate_eqb ns (fsm_state n)) eqn:Eeq.
+    { inversion H; subst. apply (Ret ns eq_refl). left. exact Eeq. }
+    destruct (fsm_transition_ok (fsm_state n) ns) eqn:Eok; simpl in H.
+    2:{ inversion H; subst. apply (Ret ns eq_refl). right. exact Eok. }
+    clear Ret. apply sstate_eqb_neq in Eeq.
+    assert (X := enter_Msame n ns now).
+    destruct (set_fsm n ns) as [n1 o1]. simpl in X. destruct (enter_state n1 ns now) as [n2 o2] eqn:Een.
+    simpl in X. destruct X as [M2 [I2 S2]]. specialize (S2 Eeq).
+    destruct (next_orcs orcs) as [orc rest].
+    destruct (fsm_next n2 orc now) as [[[n3 o3] d3]|k] eqn:E3; [|discriminate].
+    assert (S3 : fsm_state n3 = ns) by (rewrite <- S2; apply (fsm_next_FR _ _ _ _ _ _ E3)).
+    destruct (fsm_next_F _ _ _ _ _ _ E3) as [N3 [J3 [V3 F3]]]. rewrite S2 in V3, F3.
+    eapply IH; [left; split; [exact N3|exact J3]| |exact H].
+    destruct (needs_master (scode ns)) eqn:En.
+    + destruct (needs_master_cases ns En) as [Wk|Ed].
+      * right. left. right. rewrite S3.
+        destruct HJ as [[Nn Jn]|[t [Et Ht]]]; [|inversion Et; subst; exfalso; eapply working_not_ending; eassumption].
+        assert (T0 := Jn ns eq_refl Wk Eeq).
+        assert (T2 := FokT_Msame n n2 ns M2 T0).
+        assert (N2 : NoFailed n2) by (eapply NoFailed_insts; eassumption).
+        apply (FokT_Msame n2 n3 ns); [apply Vsame_Msame; apply V3; [exact N2|reflexivity]|exact T2].
+      * destruct (F3 Ed) as [Hf|[Hf Hm]].
+        -- right. right. rewrite S3. split; assumption.
+        -- right. left. right. rewrite S3. destruct Hm as [Hm|Hm]; [left; exact Hm|right; left; exact Hm].
+    + right. left. left. rewrite S3. exact En.
+Qed.
+
+Lemma fsm_run_follows : forall n orcs now n' outs, fsm_run n orcs now = Ok (n', outs) ->
+  fsm_state n' = fsm_state n \/ Fok n'.
+Proof.
+  intros n orcs now n' outs H. unfold fsm_run in H. destruct (next_orcs orcs) as [orc rest].
+  destruct (fsm_next n orc now) as [[[n1 o1] d]|k] eqn:E1; [|discriminate].
+  destruct (fsm_next_F _ _ _ _ _ _ E1) as [N1 [J1 _]].
+  assert (S1 : fsm_state n1 = fsm_state n) by apply (fsm_next_FR _ _ _ _ _ _ E1).
+  eapply set_state_follows; [left; split; [exact N1|exact J1]|left; exact S1|exact H].
+Qed.
+
+Lemma on_ending_follows : forall n t orcs now err n' outs, ending t -> on_ending n t orcs now err = Ok (n', outs) ->
+  fsm_state n' = fsm_state n \/ Fok n'.
+Proof.
+  intros n t orcs now err n' outs Ht H. unfold on_ending in H. destruct (is_master n).
+  - eapply set_state_follows; [right; exists t; split; [reflexivity|exact Ht]|left; reflexivity|exact H].
+  - destruct (negb (master n =? 0)); [|discriminate]. inversion H; subst. left. reflexivity.
+Qed.
+
+(* shape of one event: a frame part, possibly followed by one run of the FSM *)
+Lemma step_shape : forall n e n' outs, step n e = Ok (n', outs) ->
+  FR n outs n' \/
+  exists na oa ob, FR n oa na /\ outs = oa ++ ob /\
+    ((exists orcs now, fsm_run na orcs now = Ok (n', ob))
+     \/ (exists t orcs now err, ending t /\ on_ending na t orcs now err = Ok (n', ob))).
+Proof.
+  intros n e n' outs H. destruct e; simpl in H.
+  - (* LocalTick *)
+    destruct (aget (n_me n) (n_insts n)) as [s|]; [|discriminate].
+    match type of H with context [set_inst_state ?x _ _ _] => set (n1 := x) in * end.
+    assert (F1 : FR n [] n1) by apply set_insts_FR.
+    match type of H with match ?u with _ => _ end = _ => destruct u as [[n2 o2]|k] eqn:E2; [|discriminate] end.
+    assert (F2 : FR n1 o2 n2).
+    { destruct (istate_eqb (is_state s) ISTOPPED).
+      - destruct (set_inst_state n1 (n_me n) CHECKING now) as [[n2' o2']|k] eqn:E; [|discriminate].
+        simpl in E2. inversion E2; subst. apply set_inst_state_FR in E.
+        eapply FR_trans; [exact E|apply FR_plain; reflexivity].
+      - inversion E2; subst. apply FR_refl. }
+    destruct (on_timer n2 cnt now) as [[n3 o3]|k] eqn:E3; [|discriminate]. apply on_timer_FR in E3.
+    match type of H with (let '(_, _) := ?u in _) = _ => destruct u as [n4 o4] eqn:E4 end.
+    assert (F4 : FR n3 o4 n4).
+    { destruct (n_mark n3); inversion E4; subst.
+      - apply (FR_nil_r n3 n3); [apply FR_publish|apply FR_silent; [repeat split|reflexivity]].
+      - apply FR_refl. }
+    destruct (fsm_run n4 orcs now) as [[n5 o5]|k] eqn:E5; [|discriminate]. simpl in H. inversion H; subst.
+    right. exists n4, (o2 ++ o3 ++ o4), o5. split.
+    + apply (FR_nil_l n n1); [exact F1|]. eapply FR_trans; [exact F2|]. eapply FR_trans; [exact E3|exact F4].
+    + split; [rewrite <- !app_assoc; reflexivity|]. left. exists orcs, now. exact E5.
+  - (* PeerTick *)
+    left. destruct (resolve n og) as [j|]; [|inversion H; subst; apply FR_refl].
+    destruct (local_checked_or_running n); [|inversion H; subst; apply FR_refl].
+    destruct (aget j (n_insts n)) as [s|]; [|discriminate].
+    destruct (istate_eqb (is_state s) ISTOPPED).
+    + match type of H with context [set_inst_state ?x _ _ _] => set (n1 := x) in * end.
+      destruct (set_inst_state n1 j CHECKING now) as [[n2 o2]|k] eqn:E; [|discriminate].
+      simpl in H. inversion H; subst. apply set_inst_state_FR in E.
+      apply (FR_nil_l n n1); [apply set_insts_FR|].
+      eapply FR_trans; [exact E|apply FR_plain; reflexivity].
+    + inversion H; subst. apply set_insts_FR.
+  - (* PeerState *)
+    destruct (resolve n og) as [j|]; [|inversion H; subst; left; apply FR_refl].
+    match type of H with context [fsm_run ?x _ _] => set (n1 := x) in * end.
+    assert (F1 : FR n [] n1).
+    { unfold n1. destruct (Z.eqb j (n_me n)) eqn:E; [apply FR_refl|].
+      apply FR_silent; [repeat split|]. apply own_set_views_other. apply Z.eqb_neq in E. exact E. }
+    destruct (Z.eqb j (master n1)).
+    + right. exists n1, [], outs. split; [exact F1|]. split; [reflexivity|]. left. exists orcs, now. exact H.
+    + inversion H; subst. left. exact F1.
+  - (* Ident *) inversion H; subst. left. apply FR_refl.
+  - (* Auth *)
+    left. destruct (resolve n og) as [j|]; [|inversion H; subst; apply FR_refl].
+    destruct (aget j (n_insts n)) as [s|]; [|discriminate].
+    destruct (is_checking s ts); [|inversion H; subst; apply FR_refl].
+    destruct a; first [eapply set_inst_state_FR; exact H | eapply invalidate_FR; exact H].
+  - (* AllInfo *)
+    left. destruct (resolve n og) as [j|]; [|inversion H; subst; apply FR_refl].
+    destruct info as [b|]; [|eapply set_inst_state_FR; exact H].
+    destruct (inst_state n j) as [[]|]; inversion H; subst; try apply FR_refl.
+    destruct b; [|apply FR_refl]. apply FR_silent; [repeat split|reflexivity].
+  - (* InstFailure *)
+    left. destruct (resolve n og) as [j|]; [|inversion H; subst; apply FR_refl].
+    destruct (inst_state n j) as [s|]; [|inversion H; subst; apply FR_refl].
+    destruct (has_active_state s); [|inversion H; subst; apply FR_refl].
+    eapply set_inst_state_FR; exact H.
+  - (* ProcCrash *)
+    destruct (is_master n) eqn:M; [|inversion H; subst; left; apply FR_refl].
+    destruct strat; try (inversion H; subst; left; apply FR_refl).
+    + inversion H; subst. left. apply FR_by_master; [exact M|destruct forced; reflexivity].
+    + inversion H; subst. left. apply FR_by_master; [exact M|destruct forced; reflexivity].
+    + right. exists n, [], outs. split; [apply FR_refl|]. split; [reflexivity|]. right.
+      exists SHUTTING_DOWN, orcs, now, ValueError. split; [right; reflexivity|exact H].
+    + right. exists n, [], outs. split; [apply FR_refl|]. split; [reflexivity|]. right.
+      exists RESTARTING, orcs, now, OtherError. split; [left; reflexivity|exact H].
+  - (* ReqRestart *)
+    right. exists n, [], outs. split; [apply FR_refl|]. split; [reflexivity|]. right.
+    exists RESTARTING, orcs, now, OtherError. split; [left; reflexivity|exact H].
+  - (* ReqShutdown *)
+    right. exists n, [], outs. split; [apply FR_refl|]. split; [reflexivity|]. right.
+    exists SHUTTING_DOWN, orcs, now, ValueError. split; [right; reflexivity|exact H].
+  - (* ReqEndSync *)
+    match type of H with match ?u with _ => _ end = _ => destruct u as [[n1 o1]|k] eqn:E1; [|discriminate] end.
+    assert (F1 : FR n o1 n1).
+    { destruct (Z.eqb m 0).
+      - eapply select_master_FR; exact E1.
+      - inversion E1 as [E]. eapply set_master_FR; exact E. }
+    destruct (fsm_run n1 orcs now) as [[n2 o2]|k] eqn:E2; [|discriminate]. simpl in H. inversion H; subst.
+    right. exists n1, o1, o2. split; [exact F1|]. split; [reflexivity|]. left. exists orcs, now. exact E2.
+Qed.
+
+Lemma step_follows_node : forall n e n' outs, step n e = Ok (n', outs) -> fsm_state n' = fsm_state n \/ Fok n'.
+Proof.
+  intros n e n' outs H. apply step_shape in H.
+  destruct H as [F|[na [oa [ob [F [_ [[orcs [now Hr]]|[t [orcs [now [err [Ht He]]]]]]]]]]]].
+  - left. apply F.
+  - destruct F as [_ [S _]]. apply fsm_run_follows in Hr. rewrite S in Hr. exact Hr.
+  - destruct F as [_ [S _]]. apply on_ending_follows in He; [|exact Ht]. rewrite S in He. exact He.
+Qed.
+
+(* D' *)
+Theorem slave_follows_master : forall n e n' outs, step n e = Ok (n', outs) ->
+  c02_follows (n_me n) (scode (fsm_state n)) (observe n' outs) = true.
+Proof.
+  intros n e n' outs H.
+  assert (Kme : n_me n' = n_me n) by (apply step_TR0 in H; apply H).
+  apply step_follows_node in H. unfold c02_follows.
+  change (obs_fsm (observe n' outs)) with (scode (fsm_state n')).
+  change (obs_master (observe n' outs)) with (master n').
+  change (obs_mstate (observe n' outs)) with (match master_state n' with Some ms => scode ms | None => -1 end).
+  destruct H as [H|[H|[H|[H|[Hf H]]]]].
+  - rewrite H, Z.eqb_refl. reflexivity.
+  - rewrite H. simpl. rewrite orb_true_r. reflexivity.
+  - unfold is_master in H. rewrite Kme in H. rewrite H. rewrite !orb_true_r. reflexivity.
+  - rewrite H, Z.eqb_refl. rewrite !orb_true_r. reflexivity.
+  - rewrite Hf. apply orb_true_iff. right. destruct H as [H|H]; rewrite H; vm_compute; reflexivity.
+Qed.
+
+
+(* every history, from any node: graph + a non-Master follows its Master *)
+Theorem run_follows : forall n evs,
+  nspec_ok (mkFlags true false false true false false false false) (n, evs, run n evs) = true.
+Proof.
+  intros n evs. unfold nspec_ok.
+  apply (nspec_walk_run _ n (fun x => n_me x = n_me n) Evtrue); [| |reflexivity|apply hist_ok_true].
+  - intros n1 e n' outs Hme _ H. split.
+    + assert (T := step_TR0 _ _ _ _ H). destruct T as [[K _] _]. congruence.
+    + unfold step_checks. simpl. rewrite (step_fsm_chain _ _ _ _ H). rewrite <- Hme.
+      rewrite (slave_follows_master _ _ _ _ H). reflexivity.
+  - intros. reflexivity.
+Qed.
+
+(* the whole of C02 (fl_c02 for ex = true, fl_c02_noexempt for ex = false) under the hypotheses of the Master part *)
+Theorem run_c02_partial : forall ex n evs, IVx ex n -> evD_hist n evs ->
+  nspec_ok (mkFlags true true ex true false false false false) (n, evs, run n evs) = true.
+Proof.
+  intros ex n evs HI Hh. unfold nspec_ok.
+  apply (nspec_walk_run _ n (fun x => IVx ex x /\ n_me x = n_me n) (fun n e => evD n e = true));
+    [| |split; [exact HI|reflexivity]|exact Hh].
+  - intros n1 e n' outs [HI1 Hme] He H. destruct (step_D ex n1 e n' outs HI1 He H) as [HI' [[K _] _]]. split.
+    + split; [exact HI'|congruence].
+    + unfold step_checks. simpl. rewrite (enter_needs_running_master_partial ex _ _ _ _ HI1 He H). rewrite <- Hme.
+      rewrite (slave_follows_master _ _ _ _ H). reflexivity.
+  - intros. reflexivity.
+Qed.
+
+Corollary run_c02_exempt_partial : forall n evs, IVx true n -> evD_hist n evs -> nspec_ok fl_c02 (n, evs, run n evs) = true.
+Proof. intros n evs. apply (run_c02_partial true). Qed.
+
+Corollary run_c02_noexempt_partial : forall n evs, IVx false n -> evD_hist n evs ->
+  nspec_ok fl_c02_noexempt (n, evs, run n evs) = true.
+Proof. intros n evs. apply (run_c02_partial false). Qed.
+
+Lemma step_D_inv : forall ex n e n' outs, IVx ex n -> evD n e = true -> step n e = Ok (n', outs) -> IVx ex n'.
+Proof. intros ex n e n' outs H1 H2 H3. exact (proj1 (step_D ex n e n' outs H1 H2 H3)). Qed.
+
+(* a non-Master (1) following its Master (2): ELECTION -> DISTRIBUTION -> OPERATION behind the publications of 2 *)
+Definition ins12 := [(1, IRUNNING); (2, IRUNNING); (3, ISTOPPED)].
+Definition follow_hist : list event :=
+  [LocalTick 1 10 [orc0]; Auth og1 A_AUTHORIZED 11 12; PeerTick og2 1 13; Auth og2 A_AUTHORIZED 14 15;
+   PeerState og2 ELECTION false 2 ins12 16 [orc0]; LocalTick 2 20 [orc0];
+   PeerState og2 DISTRIBUTION false 2 ins12 21 [orc0]; PeerState og2 OPERATION false 2 ins12 22 [orc0]].
+
+Example ex_follow_states : obs_states (run (ex3_node false) follow_hist) = [0; 0; 0; 0; 0; 2; 3; 4]
+  /\ match last (run (ex3_node false) follow_hist) (NCrash OtherError) with NOk o => obs_master o | _ => -1 end = 2.
+Proof. vm_compute. split; reflexivity. Qed.
+
+Example ex_run_c02 : nspec_ok fl_c02_noexempt (ex3_node false, follow_hist, run (ex3_node false) follow_hist) = true.
+Proof.
+  apply run_c02_noexempt_partial.
+  - split; [apply ex3_node_WF|]. split; [apply ex3_node_ID|right; discriminate].
+  - vm_compute. repeat split.
+Qed.
+
+(* ====================================================================== *)
+(* Termination of the set_state loop is FALSE in general                   *)
+(* ====================================================================== *)
+(* One transition of the loop, as an equation *)
+Lemma set_state_unfold : forall fuel n ns orcs now acc n1 o1 n2 o2 orc rest n3 o3 d,
+  sstate_eqb ns (fsm_state n) = false -> fsm_transition_ok (fsm_state n) ns = true ->
+  set_fsm n ns = (n1, o1) -> enter_state n1 ns now = (n2, o2) -> next_orcs orcs = (orc, rest) ->
+  fsm_next n2 orc now = Ok (n3, o3, d) ->
+  set_state (S fuel) n (Some ns) orcs now acc
+  = set_state fuel n3 d rest now (acc ++ exit_outputs (fsm_state n) ++ o1 ++ o2 ++ o3).
+Proof.
+  intros fuel n ns orcs now acc n1 o1 n2 o2 orc rest n3 o3 d E1 E2 E3 E4 E5 E6.
+  simpl. rewrite E1, E2, E3, E4, E5, E6. reflexivity.
+Qed.
+
+(* STRICT + TIMEOUT synchronization options, RESYNC failure strategy, instance 2 of the STRICT list missing, the
+   synchro timeout elapsed: SYNCHRONIZATION decides ELECTION (timeout), ELECTION decides SYNCHRONIZATION (strict
+   failure, RESYNC), and the node is back exactly where it was *)
+Definition loopA : node :=
+  mkNode 1 (ex_opts true FS_RESYNC) [] [1; 2] [(1, 1); (2, 2)]
+         [(1, mkIst IRUNNING 2 2 10); (2, mkIst ISTOPPED 0 0 0)]
+         [(1, mkSm SYNCHRONIZATION true 0 [(1, IRUNNING); (2, ISTOPPED)]); (2, sm_fresh)] [1] true 0 [].
+Definition loopB : node :=
+  mkNode 1 (ex_opts true FS_RESYNC) [] [1; 2] [(1, 1); (2, 2)]
+         [(1, mkIst IRUNNING 2 2 10); (2, mkIst ISTOPPED 0 0 0)]
+         [(1, mkSm ELECTION true 0 [(1, IRUNNING); (2, ISTOPPED)]); (2, sm_fresh)] [1] true 0 [].
+
+Lemma loop_diverges : forall fuel,
+  (forall acc, set_state fuel loopA (Some ELECTION) [orc0] 15 acc = Crash OutOfFuel) /\
+  (forall acc, set_state fuel loopB (Some SYNCHRONIZATION) [orc0] 15 acc = Crash OutOfFuel).
+Proof.
+  induction fuel as [|fuel [IHA IHB]].
+  - split; intros acc; reflexivity.
+  - split; intros acc.
+    + erewrite (set_state_unfold fuel loopA ELECTION [orc0] 15 acc); try (vm_compute; reflexivity).
+      apply IHB.
+    + erewrite (set_state_unfold fuel loopB SYNCHRONIZATION [orc0] 15 acc); try (vm_compute; reflexivity).
+      apply IHA.
+Qed.
+
+(* whatever the fuel, the loop started in loopA does not end: the Python `while` of FiniteStateMachine.set_state
+   does not terminate (replayed on the real code: publications 1, 2, 1, 2, ...).
+   NOTE: SupvisorsOptions.check_options forces the CONTINUE strategy when TIMEOUT is a synchro option, so this
+   combination of options cannot come out of the configuration parser *)
+Theorem set_state_loops_on_inconsistent_options :
+  exists n next orcs now, WF n /\ forall fuel acc, set_state fuel n next orcs now acc = Crash OutOfFuel.
+Proof.
+  exists loopA, (Some ELECTION), [orc0], 15. split.
+  - repeat split.
+    + intros j. simpl. destruct (Z.eqb j 1); [reflexivity|]. destruct (Z.eqb j 2); reflexivity.
+    + intros j. unfold amem. simpl. destruct (Z.eqb j 1); [reflexivity|]. destruct (Z.eqb j 2); reflexivity.
+    + intros j. unfold amem. simpl. destruct (Z.eqb j 1); [reflexivity|]. destruct (Z.eqb j 2); [reflexivity|discriminate].
+  - intros fuel acc. apply (proj1 (loop_diverges fuel)).
+Qed.
+
+(* it is reached from the initial node by a well-formed history: local tick, local handshake, local tick *)
+Theorem run_out_of_fuel_reachable : exists n evs, WF n /\ wf_hist n evs /\ evD_hist n evs /\
+  In (NCrash OutOfFuel) (run n evs).
+Proof.
+  exists (ex_node true FS_RESYNC), [LocalTick 1 10 [orc0]; Auth og1 A_AUTHORIZED 11 12; LocalTick 2 15 [orc0]].
+  split; [apply ex_node_WF|]. split; [vm_compute; repeat split|]. split; [vm_compute; repeat split|].
+  vm_compute. right. right. left. reflexivity.
 Qed.
